@@ -124,7 +124,7 @@ macro_rules! h {
     };
 }
 
-// @h prop=C05,C04:thorough tier=quick kind=check mem=8 timeout=1800 bound="UriRefBuf text <= 4 bytes, scheme argument <= 2 bytes or removal" encodes="RiRefBufImpl::set_scheme;parse::find_scheme;PathImpl::looks_like_scheme;utils::{replace,allocate_range}"
+// @h prop=C05,C04:thorough tier=quick kind=check reach=0 mem=8 timeout=1800 bound="UriRefBuf text <= 4 bytes, scheme argument <= 2 bytes or removal" encodes="RiRefBufImpl::set_scheme;parse::find_scheme;PathImpl::looks_like_scheme;utils::{replace,allocate_range}"
 #[cfg_attr(kani, kani::proof)]
 #[cfg_attr(kani, kani::unwind(11))]
 #[cfg_attr(kani, kani::stub(std::vec::Vec::resize, crate::stubs::vec_resize))]
@@ -132,7 +132,7 @@ pub fn c05_urirefbuf_set_scheme_n4() {
     urirefbuf_set_scheme::<4, 2, 7>()
 }
 
-// @h prop=C05 tier=thorough kind=check timeout=2400 bound="UriRefBuf text <= 5 bytes, scheme argument <= 2 bytes or removal" encodes="RiRefBufImpl::set_scheme;parse::find_scheme;PathImpl::looks_like_scheme;utils::{replace,allocate_range}"
+// @h prop=C05 tier=thorough kind=check reach=0 timeout=2400 bound="UriRefBuf text <= 5 bytes, scheme argument <= 2 bytes or removal" encodes="RiRefBufImpl::set_scheme;parse::find_scheme;PathImpl::looks_like_scheme;utils::{replace,allocate_range}"
 #[cfg_attr(kani, kani::proof)]
 #[cfg_attr(kani, kani::unwind(11))]
 #[cfg_attr(kani, kani::stub(std::vec::Vec::resize, crate::stubs::vec_resize))]
@@ -140,7 +140,7 @@ pub fn c05_urirefbuf_set_scheme_n5() {
     urirefbuf_set_scheme::<5, 2, 8>()
 }
 
-// @h prop=C05,C04:thorough tier=quick kind=check mem=8 timeout=1800 bound="UriRefBuf text <= 4 bytes, authority argument <= 2 bytes or removal" encodes="RiRefBufImpl::set_authority;parse::find_authority;utils::{replace,allocate_range}"
+// @h prop=C05,C04:thorough tier=quick kind=check reach=0 mem=8 timeout=1800 bound="UriRefBuf text <= 4 bytes, authority argument <= 2 bytes or removal" encodes="RiRefBufImpl::set_authority;parse::find_authority;utils::{replace,allocate_range}"
 #[cfg_attr(kani, kani::proof)]
 #[cfg_attr(kani, kani::unwind(11))]
 #[cfg_attr(kani, kani::stub(std::vec::Vec::resize, crate::stubs::vec_resize))]
@@ -148,7 +148,7 @@ pub fn c05_urirefbuf_set_authority_n4() {
     urirefbuf_set_authority::<4, 2, 9>()
 }
 
-// @h prop=C05 tier=thorough kind=check timeout=2400 bound="UriRefBuf text <= 5 bytes, authority argument <= 2 bytes or removal" encodes="RiRefBufImpl::set_authority;parse::find_authority;utils::{replace,allocate_range}"
+// @h prop=C05 tier=thorough kind=check reach=0 timeout=2400 bound="UriRefBuf text <= 5 bytes, authority argument <= 2 bytes or removal" encodes="RiRefBufImpl::set_authority;parse::find_authority;utils::{replace,allocate_range}"
 #[cfg_attr(kani, kani::proof)]
 #[cfg_attr(kani, kani::unwind(11))]
 #[cfg_attr(kani, kani::stub(std::vec::Vec::resize, crate::stubs::vec_resize))]
@@ -156,7 +156,7 @@ pub fn c05_urirefbuf_set_authority_n5() {
     urirefbuf_set_authority::<5, 2, 10>()
 }
 
-// @h prop=C05,C04 tier=quick kind=check mem=8 timeout=1800 bound="UriRefBuf text <= 4 bytes, path argument <= 3 bytes" encodes="RiRefBufImpl::set_path;parse::find_path;RiRefImpl::authority;utils::{replace,allocate_range}"
+// @h prop=C05,C04 tier=quick kind=check reach=0 mem=8 timeout=1800 bound="UriRefBuf text <= 4 bytes, path argument <= 3 bytes" encodes="RiRefBufImpl::set_path;parse::find_path;RiRefImpl::authority;utils::{replace,allocate_range}"
 #[cfg_attr(kani, kani::proof)]
 #[cfg_attr(kani, kani::unwind(11))]
 #[cfg_attr(kani, kani::stub(std::vec::Vec::resize, crate::stubs::vec_resize))]
@@ -164,7 +164,7 @@ pub fn c05_urirefbuf_set_path_n4() {
     urirefbuf_set_path::<4, 3, 9>()
 }
 
-// @h prop=C05 tier=thorough kind=check timeout=2400 bound="UriRefBuf text <= 5 bytes, path argument <= 3 bytes" encodes="RiRefBufImpl::set_path;parse::find_path;RiRefImpl::authority;utils::{replace,allocate_range}"
+// @h prop=C05 tier=thorough kind=check reach=0 timeout=2400 bound="UriRefBuf text <= 5 bytes, path argument <= 3 bytes" encodes="RiRefBufImpl::set_path;parse::find_path;RiRefImpl::authority;utils::{replace,allocate_range}"
 #[cfg_attr(kani, kani::proof)]
 #[cfg_attr(kani, kani::unwind(11))]
 #[cfg_attr(kani, kani::stub(std::vec::Vec::resize, crate::stubs::vec_resize))]
@@ -172,7 +172,7 @@ pub fn c05_urirefbuf_set_path_n5() {
     urirefbuf_set_path::<5, 3, 10>()
 }
 
-// @h prop=C05,C04:thorough tier=quick kind=check mem=8 timeout=1800 bound="UriRefBuf text <= 4 bytes, query argument <= 2 bytes or removal" encodes="RiRefBufImpl::set_query;parse::find_query;utils::{replace,allocate_range}"
+// @h prop=C05,C04:thorough tier=quick kind=check reach=0 mem=8 timeout=1800 bound="UriRefBuf text <= 4 bytes, query argument <= 2 bytes or removal" encodes="RiRefBufImpl::set_query;parse::find_query;utils::{replace,allocate_range}"
 #[cfg_attr(kani, kani::proof)]
 #[cfg_attr(kani, kani::unwind(11))]
 #[cfg_attr(kani, kani::stub(std::vec::Vec::resize, crate::stubs::vec_resize))]
@@ -180,7 +180,7 @@ pub fn c05_urirefbuf_set_query_n4() {
     urirefbuf_set_query::<4, 2, 7>()
 }
 
-// @h prop=C05 tier=thorough kind=check timeout=2400 bound="UriRefBuf text <= 5 bytes, query argument <= 2 bytes or removal" encodes="RiRefBufImpl::set_query;parse::find_query;utils::{replace,allocate_range}"
+// @h prop=C05 tier=thorough kind=check reach=0 timeout=2400 bound="UriRefBuf text <= 5 bytes, query argument <= 2 bytes or removal" encodes="RiRefBufImpl::set_query;parse::find_query;utils::{replace,allocate_range}"
 #[cfg_attr(kani, kani::proof)]
 #[cfg_attr(kani, kani::unwind(11))]
 #[cfg_attr(kani, kani::stub(std::vec::Vec::resize, crate::stubs::vec_resize))]
@@ -188,7 +188,7 @@ pub fn c05_urirefbuf_set_query_n5() {
     urirefbuf_set_query::<5, 2, 8>()
 }
 
-// @h prop=C05,C04:thorough tier=quick kind=check mem=8 timeout=1800 bound="UriRefBuf text <= 4 bytes, fragment argument <= 2 bytes or removal" encodes="RiRefBufImpl::set_fragment;parse::find_fragment;utils::{replace,allocate_range}"
+// @h prop=C05,C04:thorough tier=quick kind=check reach=0 mem=8 timeout=1800 bound="UriRefBuf text <= 4 bytes, fragment argument <= 2 bytes or removal" encodes="RiRefBufImpl::set_fragment;parse::find_fragment;utils::{replace,allocate_range}"
 #[cfg_attr(kani, kani::proof)]
 #[cfg_attr(kani, kani::unwind(11))]
 #[cfg_attr(kani, kani::stub(std::vec::Vec::resize, crate::stubs::vec_resize))]
@@ -196,7 +196,7 @@ pub fn c05_urirefbuf_set_fragment_n4() {
     urirefbuf_set_fragment::<4, 2, 7>()
 }
 
-// @h prop=C05 tier=thorough kind=check timeout=2400 bound="UriRefBuf text <= 5 bytes, fragment argument <= 2 bytes or removal" encodes="RiRefBufImpl::set_fragment;parse::find_fragment;utils::{replace,allocate_range}"
+// @h prop=C05 tier=thorough kind=check reach=0 timeout=2400 bound="UriRefBuf text <= 5 bytes, fragment argument <= 2 bytes or removal" encodes="RiRefBufImpl::set_fragment;parse::find_fragment;utils::{replace,allocate_range}"
 #[cfg_attr(kani, kani::proof)]
 #[cfg_attr(kani, kani::unwind(11))]
 #[cfg_attr(kani, kani::stub(std::vec::Vec::resize, crate::stubs::vec_resize))]
@@ -217,7 +217,7 @@ setter_body!(irirefbuf_set_scheme, IriRefBuf, t_iri_iriref_valid_k, mk_irirefbuf
 setter_body!(irirefbuf_set_fragment, IriRefBuf, t_iri_iriref_valid_k, mk_irirefbuf, Which::Fragment, v_iri_fragment,
     |x: &mut IriRefBuf, a: Option<&[u8]>| x.set_fragment(a.map(|a| unsafe { iri::Fragment::new_unchecked(as_str(a)) })), true);
 
-// @h prop=C05,C04:thorough tier=quick kind=check mem=8 timeout=1800 bound="IriRefBuf text <= 4 bytes (UTF-8), query argument <= 3 bytes (one 3-byte scalar fits) or removal" encodes="RiRefBufImpl::set_query for IriRefBuf (String buffer)"
+// @h prop=C05,C04:thorough tier=quick kind=check reach=0 mem=8 timeout=1800 bound="IriRefBuf text <= 4 bytes (UTF-8), query argument <= 3 bytes (one 3-byte scalar fits) or removal" encodes="RiRefBufImpl::set_query for IriRefBuf (String buffer)"
 #[cfg_attr(kani, kani::proof)]
 #[cfg_attr(kani, kani::unwind(11))]
 #[cfg_attr(kani, kani::stub(std::vec::Vec::resize, crate::stubs::vec_resize))]
@@ -225,7 +225,7 @@ pub fn c05_irirefbuf_set_query_n4() {
     irirefbuf_set_query::<4, 3, 8>()
 }
 
-// @h prop=C05 tier=thorough kind=check timeout=2400 bound="IriRefBuf text <= 5 bytes (UTF-8), query argument <= 3 bytes (one 3-byte scalar fits) or removal" encodes="RiRefBufImpl::set_query for IriRefBuf (String buffer)"
+// @h prop=C05 tier=thorough kind=check reach=0 timeout=2400 bound="IriRefBuf text <= 5 bytes (UTF-8), query argument <= 3 bytes (one 3-byte scalar fits) or removal" encodes="RiRefBufImpl::set_query for IriRefBuf (String buffer)"
 #[cfg_attr(kani, kani::proof)]
 #[cfg_attr(kani, kani::unwind(11))]
 #[cfg_attr(kani, kani::stub(std::vec::Vec::resize, crate::stubs::vec_resize))]
@@ -246,7 +246,7 @@ setter_body!(iribuf_set_scheme, IriBuf, t_iri_iri_valid_k, mk_iribuf, Which::Sch
 setter_body!(iribuf_set_path, IriBuf, t_iri_iri_valid_k, mk_iribuf, Which::Path, v_iri_path,
     |x: &mut IriBuf, a: Option<&[u8]>| x.set_path(unsafe { iri::Path::new_unchecked(as_str(a.unwrap())) }), false);
 
-// @h prop=C05,C04:thorough tier=quick kind=check mem=8 timeout=1800 bound="UriBuf text <= 4 bytes, scheme argument <= 2 bytes" encodes="RiBufImpl::set_scheme;parse::scheme"
+// @h prop=C05,C04:thorough tier=quick kind=check reach=0 mem=8 timeout=1800 bound="UriBuf text <= 4 bytes, scheme argument <= 2 bytes" encodes="RiBufImpl::set_scheme;parse::scheme"
 #[cfg_attr(kani, kani::proof)]
 #[cfg_attr(kani, kani::unwind(11))]
 #[cfg_attr(kani, kani::stub(std::vec::Vec::resize, crate::stubs::vec_resize))]
@@ -254,7 +254,7 @@ pub fn c05_uribuf_set_scheme_n4() {
     uribuf_set_scheme::<4, 2, 7>()
 }
 
-// @h prop=C05 tier=thorough kind=check timeout=2400 bound="UriBuf text <= 5 bytes, scheme argument <= 2 bytes" encodes="RiBufImpl::set_scheme;parse::scheme"
+// @h prop=C05 tier=thorough kind=check reach=0 timeout=2400 bound="UriBuf text <= 5 bytes, scheme argument <= 2 bytes" encodes="RiBufImpl::set_scheme;parse::scheme"
 #[cfg_attr(kani, kani::proof)]
 #[cfg_attr(kani, kani::unwind(11))]
 #[cfg_attr(kani, kani::stub(std::vec::Vec::resize, crate::stubs::vec_resize))]
@@ -286,7 +286,7 @@ fn constructors<const M: usize>() {
     forget(i);
 }
 
-// @h prop=C04 tier=quick kind=check timeout=1800 mem=6 bound="scheme <= 4 bytes" encodes="Default for UriRefBuf/IriRefBuf/PathBuf;RiBufImpl::from_scheme;UriBuf::from_scheme;IriBuf::from_scheme"
+// @h prop=C04 tier=quick kind=check reach=0 timeout=1800 mem=6 bound="scheme <= 4 bytes" encodes="Default for UriRefBuf/IriRefBuf/PathBuf;RiBufImpl::from_scheme;UriBuf::from_scheme;IriBuf::from_scheme"
 #[cfg_attr(kani, kani::proof)]
 #[cfg_attr(kani, kani::unwind(8))]
 #[cfg_attr(kani, kani::stub(std::vec::Vec::push, crate::stubs::vec_push))]
